@@ -640,3 +640,25 @@ def external_callers(prog, sig, classes):
                 if x.get("callee_sig") == sig:
                     sites.append(A.loc(g_, x))
     return sites
+
+
+def bulk_copies(scan):
+    """block copies a function performs, in one form whatever the spelling: [(src expr, number of ELEMENTS, dst expr, line)] for
+    std::copy_n(src, n, dst), std::copy(first, last, dst) and memcpy(dst, src, sizeof(T)*n) (a byte count without a sizeof factor cannot be
+    turned into elements and is reported with length None)"""
+    out = []
+    for c in scan.calls:
+        cal = c.callee or ""
+        if cal == "std::copy_n" and len(c.args) == 3:
+            out.append((c.args[0], c.args[1], c.args[2], c.line))
+        elif cal == "std::copy" and len(c.args) == 3 and c.args[0] is not None and c.args[1] is not None:
+            out.append((c.args[0], sp.expand(c.args[1] - c.args[0]), c.args[2], c.line))
+        elif cal in ("memcpy", "std::memcpy", "memmove", "std::memmove") and len(c.args) == 3:
+            nb = c.args[2]
+            ln = None
+            if nb is not None:
+                szs = [z for z in nb.atoms(sp.Function) if str(z.func) == "sizeof"]
+                if len(szs) == 1 and sp.expand(nb).coeff(szs[0], 0) == 0:
+                    ln = sp.expand(nb / szs[0])
+            out.append((c.args[1], ln, c.args[0], c.line))
+    return out
